@@ -422,6 +422,28 @@ def rule_use(ctx):
                 ctx.ob('C09.use', f'{fi.fq}:{norm(c)}:{_nth(fi.node, c)}', why is not None,
                        why or f'{norm(c)} can run on an empty queue: KeyError escapes into {fi.qualname}', c, fi.module)
     ctx.require(n >= 25, 'C09.use', f'only {n} peek/pop sites found')
+    # iteration yields a snapshot: a loop over a live queue may read the entries, but if it runs them (or anything that can add,
+    # re-add or remove entries) the changes made meanwhile are lost to the loop; draining by running is done with pop
+    m_ = 0
+    for fi in ctx.repo.functions.values():
+        if fi.module.name == 'sc3.base._taskq':
+            continue
+        for lp in walk_local(fi.node):
+            if not isinstance(lp, ast.For):
+                continue
+            recv = norm(lp.iter)
+            if recv.split('.')[-1] not in queues:
+                continue          # list(q) / tuple(q) copies are deliberate snapshots
+            m_ += 1
+            lvars = {n_.id for n_ in ast.walk(lp.target) if isinstance(n_, ast.Name)}
+            runs = [norm(c) for c in U.calls(lp) if (isinstance(c.func, ast.Name) and c.func.id in lvars) or
+                    (isinstance(c.func, ast.Attribute) and isinstance(c.func.value, ast.Name) and c.func.value.id in lvars and
+                     c.func.attr in ('_wakeup', '__awake__', '__call__', 'next', 'run', 'play', 'value')) or
+                    (U.method_name(c) in ('add', 'remove', 'pop', 'clear') and norm(c.func.value) == recv)]
+            ctx.ob('C09.use', f'{fi.fq}:for-in-{recv}:reads-only', not runs,
+                   f'the loop over {recv} runs {runs}: an entry added, re-added or removed by what it runs is invisible to the snapshot being '
+                   f'iterated (entries lost or run at their old time); drain with `while not q.empty(): q.pop()`', lp, fi.module)
+    ctx.require(m_ >= 1, 'C09.use', 'no loop over a task queue found (OscScore.finish iterates its score queue)')
 
 
 def _nth(fnode, call):
@@ -537,6 +559,9 @@ def run(ctx):
 
 
 MUTANTS = [
+    dict(rule='C09.use', name='shutdown runs the exit actions from an iteration snapshot (seed C09-f)', file='sc3/base/main.py',
+         old="        while not cls._atexitq.empty():\n            with cls._main_lock:\n                cls._atexitq.pop()[1]()\n",
+         new="        for _, action in cls._atexitq:\n            with cls._main_lock:\n                action()\n        cls._atexitq.clear()\n"),
     dict(rule='C09.inv', name='tombstone count not incremented', file='sc3/base/_taskq.py',
          old="            self._removed_counter += 1\n", new=""),
     dict(rule='C09.inv', name='index entry not deleted on pop', file='sc3/base/_taskq.py',
